@@ -37,7 +37,8 @@ def run(ctx):
     for i, (c_ok, o_ok) in sorted(failing.items()):
         rep = {"replay_kind": "bus_case", "case": cases[i], "observed": res[i][0]}
         if not o_ok:
-            violations.append({"sig": None, "what": f"bus delivered out of order / wrong payload / skipped events after an accepted seek (case {i}: {cases[i]['ops'][:12]})", **rep})
+            hole = any(ob[0] == "seek" and len(ob) > 3 and ob[3] for ob in res[i][0])
+            violations.append({"sig": "F31-seek-accepted-into-a-hole" if hole else None, "what": f"bus delivered out of order / wrong payload / skipped events after an accepted seek (case {i}: {cases[i]['ops'][:12]})", **rep})
         elif not c_ok:
             corr.append({"what": f"corr_sqlite_bus: model log != plugins on case {i}: {cases[i]['ops'][:12]}", **rep})
     # the producer keeps writing while a consumer iterates: none of its sends may be refused
